@@ -152,7 +152,42 @@ class C08(core.Check):
         return ac.coq_case(case)
 
     # ------------------------------------------------------------------ oracle
+    def _linked_battery(self):
+        """dot-assignment of every linked string property of every element name in the table: the value is read back through the
+        property, through getAttribute under exactly one (lower-case) name, through the mapping, the attribute list and the start tag"""
+        import re as _re
+        from AdvancedHTMLParser.Tags import AdvancedTag
+        from AdvancedHTMLParser import constants as K
+        special = set(K.TAG_ITEM_ATTRIBUTES_SPECIAL_VALUES) | set(K.TAG_ITEM_ATTRIBUTES_SPECIAL_VALIDATION)
+        binary = set(K.TAG_ITEM_BINARY_ATTRIBUTES) | set(K.TAG_ITEM_BINARY_ATTRIBUTES_STRING_ATTR)
+        for tag in sorted(K.TAG_NAMES_TO_ADDITIONAL_ATTRIBUTES):
+            for name in sorted(K.TAG_NAMES_TO_ADDITIONAL_ATTRIBUTES[tag]):
+                html = K.TAG_ITEM_CHANGE_NAME_FROM_ITEM.get(name, name)
+                if name in special or html in binary or name in binary or len(name) < 2 or name in ('class', 'className', 'style'):
+                    continue
+                el = AdvancedTag(tag)
+                before = len(el.attributes.keys())
+                for v in ('v1', 'second value'):
+                    setattr(el, name, v)
+                    where = '<%s>.%s = %r' % (tag, name, v)
+                    if getattr(el, name) != v:
+                        return '%s: reading the property gives %r' % (where, getattr(el, name))
+                    keys = list(el.attributes.keys())
+                    if len(keys) != before + 1:
+                        return '%s: the mapping now has the names %r' % (where, keys)
+                    k = keys[-1]
+                    if k != k.lower() or el.getAttribute(k) != v or el.attributes[k] != v or dict(el.getAttributesList()).get(k) != v:
+                        return '%s: stored as %r, getAttribute gives %r' % (where, k, el.getAttribute(k))
+                    if (' %s="%s"' % (k, v)) not in el.getStartTag():
+                        return '%s: the start tag is %s' % (where, el.getStartTag())
+        return None
+
     def oracle(self, case):
+        if not getattr(self, '_battery_done', False):
+            self._battery_done = True
+            bad = self._linked_battery()
+            if bad:
+                return bad
         binary = binary_names()
         t, keep = ac.new_element(case['origin'], case['attrs'])
         spec = []          # ordered list of [lower name, value]
